@@ -77,5 +77,15 @@ RefUnique == \A i, j \in 1..Len(rissued) : i # j => rissued[i] # rissued[j]
 \* (d = number of id-space wraps between the origin and the issue; exact while fewer than SerialMod wraps happened)
 NoReissue == (nextSerial - origin[2] < SerialMod) =>
              \A i \in 1..Len(issued) : LET d == (issued[i][2] - origin[2]) % SerialMod IN d > 0 \/ issued[i][1] >= origin[1]
+\* The sequence the allocator issues (closed form of the sequential behaviour): numbers run 1..MaxId round and round;
+\* a number below MaxId carries the count of wraps so far, MaxId itself (the wrapping allocation) already the next count.
+\* k = 0, 1, 2, ... counted from the origin.
+SeqIssue(k) == LET pos == (origin[1] - 1) + k
+                   id == (pos % MaxId) + 1
+                   cyc == pos \div MaxId
+               IN <<id, (origin[2] + cyc + (IF id = MaxId THEN 1 ELSE 0)) % SerialMod>>
+\* whenever no allocation is in flight, what has been issued is exactly the first n members of that sequence (in some order)
+AllIdle == \A t \in Threads : pc[t] = "idle"
+IssuedIsSequence == AllIdle => \A k \in 0..(Len(issued) - 1) : \E i \in 1..Len(issued) : <<issued[i][1], issued[i][2]>> = SeqIssue(k)
 SerialAdvancesOnWrap == \A i \in 1..Len(issued) : \A j \in 1..Len(issued) : (i < j /\ issued[i][1] = issued[j][1]) => issued[i][2] # issued[j][2]
 =============================================================================
